@@ -50,8 +50,15 @@ def gen_plan(rng, family):
             main.append(["submit", rng.choice(["value", "long", "raise", "badarg"])])
             if rng.random() < 0.3:
                 main.append(["await_all"])
+                if rng.random() < 0.5:
+                    main.append(["pause"])      # idle workers may time out before the next submit
         if rng.random() < 0.3:
             plan["threads"].append([["submit", "value"] for _ in range(rng.randint(1, 2))])
+        if rng.random() < 0.25:
+            # the pool goes idle, its workers may time out, and a new job arrives while the manager is dealing with their exits
+            plan["workers"] = rng.choice([1, 1, 2])
+            plan["threads"] = [[["submit", "value"], ["await_all"], ["pause"], ["submit", "value"]]
+                               + ([["await_all"], ["pause"], ["submit", "value"]] if rng.random() < 0.4 else [])]
     elif family == "shutdown":                  # C05: graceful shutdown at any point
         plan["timeout"] = rng.choice([None, None, 0.05])
         for _ in range(n):
